@@ -100,6 +100,9 @@ func site(fn string) string {
 }
 
 func runCase(h *rh.Harness, c Case) Result {
+	if c.Route == "loki_tail" {
+		return runTail(h, c)
+	}
 	spec, ok := specByKey[c.Route]
 	if !ok {
 		return Result{ID: c.ID, Class: "harness:unknown_route", What: c.Route}
@@ -127,28 +130,55 @@ func runCase(h *rh.Harness, c Case) Result {
 		}
 		res.BodyOK = string(b)
 	}
+	classify(&res)
+	return res
+}
+
+func classify(res *Result) {
 	switch {
-	case out.Panic != "":
-		res.Class = "no_response:" + site(out.PanicSite) + ":" + panicKind(out.Panic)
-		res.What = "panic escaped the handler (net/http aborts the connection without a response): " + out.Panic
-	case out.Hang && out.HangBusy:
-		res.Class = "unbounded:" + site(out.HangSite)
-		res.What = "no response within the bound: the handler is still computing in " + out.HangSite
-	case out.Hang:
-		res.Class = "hang:" + site(out.HangSite)
-		res.What = "no response within the bound: the handler is parked in " + out.HangSite
-	case len(out.Leaked) > 0:
+	case res.Out.Panic != "":
+		res.Class = "no_response:" + site(res.Out.PanicSite) + ":" + panicKind(res.Out.Panic)
+		res.What = "panic escaped the handler (net/http aborts the connection without a response): " + res.Out.Panic
+	case res.Out.Hang && res.Out.HangBusy:
+		res.Class = "unbounded:" + site(res.Out.HangSite)
+		res.What = "no response within the bound: the handler is still computing in " + res.Out.HangSite
+	case res.Out.Hang:
+		res.Class = "hang:" + site(res.Out.HangSite)
+		res.What = "no response within the bound: the handler is parked in " + res.Out.HangSite
+	case len(res.Out.Leaked) > 0:
 		var s []string
 		seen := map[string]bool{}
-		for _, fn := range out.Leaked {
+		for _, fn := range res.Out.Leaked {
 			if !seen[site(fn)] {
 				seen[site(fn)] = true
 				s = append(s, site(fn))
 			}
 		}
 		res.Class = "leak:" + strings.Join(s, "+")
-		res.What = fmt.Sprintf("%d goroutine(s) started for the request still alive after the response: %s", len(out.Leaked), strings.Join(out.Leaked, ", "))
+		res.What = fmt.Sprintf("%d goroutine(s) started for the request still alive after the response: %s", len(res.Out.Leaked), strings.Join(res.Out.Leaked, ", "))
 	}
+}
+
+// runTail: the websocket route.  The service polls once per second; the client listens for 2.5 s and leaves.
+func runTail(h *rh.Harness, c Case) Result {
+	sc := newScript(c.Fault)
+	h.Script.SetHandler(sc.Handle)
+	h.FreshName()
+	old := rh.CensusBound
+	if c.CensusMs > 0 && c.CensusMs < 3000 {
+		rh.CensusBound = 3 * time.Second // the tail goroutine notices the closed watcher at its next 1 s tick
+	}
+	out := h.DoTail(qs("query", c.Query), 2500*time.Millisecond)
+	rh.CensusBound = old
+	res := Result{ID: c.ID, Out: out, Keys: sc.Keys, Rows: sc.Rows, Unknown: sc.Unknown}
+	if len(out.Body) > 0 {
+		b := out.Body
+		if len(b) > 160 {
+			b = b[:160]
+		}
+		res.BodyOK = string(b)
+	}
+	classify(&res)
 	return res
 }
 
